@@ -100,6 +100,10 @@ func (rb *RingBuffer[T]) Len() (l uint) {
 
 // Clear clears the buffer.
 func (rb *RingBuffer[T]) Clear() {
+	// Zero the storage so that Current doesn't return a stale element and the
+	// dropped elements can be collected.
+	clear(rb.buf)
+
 	rb.full = false
 	rb.cur = 0
 }
